@@ -25,6 +25,8 @@ RULE += (
          'Also: an item guard refusing one element of the window (pull '
          'bound, no len(), termination); unbatched loops left early by '
          'return / exception still pull every element exactly once. ')
+RULE += (
+         'Re-entered template variant; page sizes 20..250. ')
 ASSUMPTIONS = [
     'bound = last displayed element + step size + orphan; when size < 1 the '
     'reported sequence-step-size is used',
